@@ -354,6 +354,67 @@ def check_nested_caller_map(rep):
                             pname, str(got.prettyPrint())[:80].replace('\n', ' '), payload.prettyPrint()), dict(case, bytes=data.hex()))
 
 
+def check_two_open_type_fields(rep):
+    """a record with a SET OF / SEQUENCE OF open type field (tagged ANY elements) AND a second open type field whose typed
+    value is itself a SEQUENCE OF: what the encoder does for the elements of the first must not reach the second.  The
+    typed-value encoding equals the encoding of the same record with the inner values given pre-encoded (ANY), and decodes
+    back to the typed values."""
+    from pyasn1.type import univ, namedtype, opentype, tag as ptag
+
+    def ctx(n, explicit):
+        t = ptag.Tag(ptag.tagClassContext, ptag.tagFormatConstructed if explicit else ptag.tagFormatSimple, n)
+        return dict(explicitTag=t) if explicit else dict(implicitTag=t)
+    ints = univ.SequenceOf(componentType=univ.Integer())
+    for container in (univ.Sequence, univ.Set):
+        for coll in (univ.SetOf, univ.SequenceOf):
+            for el_explicit in (True, False):
+                for order in ('coll-first', 'coll-last'):
+                    any_el = univ.Any().subtype(**ctx(3, el_explicit))
+                    attrs_t = coll(componentType=any_el).subtype(implicitTag=ptag.Tag(ptag.tagClassContext, ptag.tagFormatConstructed, 5 if order == 'coll-last' else 0))
+                    params_t = univ.Any().subtype(**ctx(1, True))
+                    fields = [namedtype.NamedType('id', univ.Integer()),
+                              namedtype.NamedType('attrs', attrs_t, openType=opentype.OpenType('id', {5: univ.Integer()})),
+                              namedtype.NamedType('kind', univ.Integer().subtype(implicitTag=ptag.Tag(ptag.tagClassContext, ptag.tagFormatSimple, 2))),
+                              namedtype.NamedType('params', params_t, openType=opentype.OpenType('kind', {9: ints}))]
+                    schema = container(componentType=namedtype.NamedTypes(*fields))
+                    inner = ints.clone()
+                    inner.extend([7, 8])
+                    for cdc, dm in MODES:
+                        rep.evaluations += 1
+                        rep.count('two-open-type-fields')
+                        case = {'kind': 'two-open-type-fields', 'container': container.__name__, 'collection': coll.__name__,
+                                'element': 'explicit' if el_explicit else 'implicit', 'order': order, 'codec': cdc, 'defMode': dm}
+                        try:
+                            typed = schema.clone()
+                            typed['id'] = 5
+                            typed['attrs'].extend([univ.Integer(1), univ.Integer(2)])
+                            typed['kind'] = 9
+                            typed['params'] = inner
+                            pre = schema.clone()
+                            pre['id'] = 5
+                            pre['attrs'].extend([any_el.clone(enc(cdc, univ.Integer(1), dm)), any_el.clone(enc(cdc, univ.Integer(2), dm))])
+                            pre['kind'] = 9
+                            pre['params'] = params_t.clone(enc(cdc, inner, dm))
+                            d_typed = enc(cdc, typed, dm)
+                            d_pre = enc(cdc, pre, dm)
+                        except Exception as e:  # noqa
+                            rep.fail('two-open-type-fields:encode-' + codec.classify(e), repr(e)[:200], case)
+                            continue
+                        if d_typed != d_pre:
+                            rep.fail('two-open-type-fields:typed-differs-from-preencoded',
+                                     'typed inner values encode as %s, the same values pre-encoded as %s' % (d_typed.hex(), d_pre.hex()),
+                                     dict(case, bytes=d_typed.hex()))
+                            continue
+                        try:
+                            res, rest = codec.DEC[cdc].decode(d_typed, asn1Spec=schema, decodeOpenTypes=True)
+                            ok = (not rest and [int(x) for x in res['params']] == [7, 8] and sorted(int(x) for x in res['attrs']) == [1, 2])
+                        except Exception as e:  # noqa
+                            ok = False
+                        if not ok:
+                            rep.fail('two-open-type-fields:roundtrip', 'the encoding %s does not decode back to the typed values' % d_typed.hex(),
+                                     dict(case, bytes=d_typed.hex()))
+
+
 def any_match(items, t, w):
     for it in items:
         try:
@@ -402,6 +463,8 @@ def run(rep, tier, seed):
     check_map_history(rep, rng)
     rep.case('nested caller map', nontrivial=True)
     check_nested_caller_map(rep)
+    rep.case('two open type fields', nontrivial=True)
+    check_two_open_type_fields(rep)
     for i in range(n):
         container = rng.choice(['seq', 'seq', 'set'])
         id_kind = rng.choice(['int', 'oid'])
